@@ -1,5 +1,7 @@
+pub mod c05;
 pub mod conn;
 pub mod smoke;
+pub mod tables;
 
 use serde_json::Value;
 use std::collections::HashMap;
@@ -32,6 +34,8 @@ pub fn dispatch(args: &[String]) -> i32 {
     match cmd.as_str() {
         "smoke" => smoke::main(&a),
         "conn" => conn::main(&a),
+        "c05" => c05::main(&a),
+        "table-tiebreak" => tables::tiebreak(&a),
         other => {
             eprintln!("unknown scenario {other}");
             2
